@@ -466,8 +466,8 @@ ROUND10 = {
     'ERR_NOT_LAST': 'package main\n\nimport (\n\t"errors"\n\n\t"github.com/mazrean/kessoku"\n)\n\ntype Conn struct{ S string }\ntype Warning interface{ Error() string }\ntype App struct {\n\tC *Conn\n\tW Warning\n}\n\nfunc Open() (*Conn, error, Warning) { return &Conn{"c"}, nil, errors.New("deprecated driver") }\nfunc NewApp(c *Conn, w Warning) *App { return &App{c, w} }\n\nvar _ = kessoku.Inject[*App]("InitApp", kessoku.Provide(Open), kessoku.Provide(NewApp))\n\ntype Svc struct{ C *Conn }\n\nfunc Dial() (error, *Conn)  { return nil, &Conn{"d"} }\nfunc NewSvc(c *Conn) *Svc   { return &Svc{c} }\n\nvar _ = kessoku.Inject[*Svc]("InitSvc", kessoku.Provide(Dial), kessoku.Provide(NewSvc))\n\nfunc main() {\n\ta, err := InitApp()\n\tif err != nil || a == nil || a.C.S != "c" || a.W == nil || a.W.Error() != "deprecated driver" {\n\t\tpanic("wrong result")\n\t}\n\ts, err := InitSvc()\n\tif err != nil || s.C.S != "d" {\n\t\tpanic("wrong result")\n\t}\n}\n',
     'BIND_STRUCT': 'package main\n\nimport "github.com/mazrean/kessoku"\n\ntype Namer interface{ Name() string }\ntype Port int\ntype Config struct {\n\tPort Port\n\tname string\n}\n\nfunc (c *Config) Name() string { return c.name }\nfunc NewConfig() *Config       { return &Config{Port: 5, name: "cfg"} }\n\ntype App struct {\n\tN Namer\n\tP Port\n}\n\nfunc NewApp(n Namer, p Port) *App { return &App{n, p} }\n\nvar _ = kessoku.Inject[*App]("InitApp", kessoku.Provide(NewConfig), kessoku.Bind[Namer](kessoku.Struct[*Config]()), kessoku.Provide(NewApp))\n\nfunc main() {\n\tvar f func() *App = InitApp\n\ta := f()\n\tif a.N.Name() != "cfg" || a.P != 5 {\n\t\tpanic("wrong result")\n\t}\n}\n',
     'BIND_STRUCT_DUP': 'package main\n\nimport "github.com/mazrean/kessoku"\n\ntype Namer interface{ Name() string }\ntype Port int\ntype Config struct {\n\tPort Port\n\tname string\n}\n\nfunc (c *Config) Name() string { return c.name }\nfunc NewConfig() *Config       { return &Config{Port: 5, name: "cfg"} }\n\ntype Other struct{}\n\nfunc (*Other) Name() string { return "other" }\nfunc NewOther() *Other      { return &Other{} }\n\ntype App struct{ N Namer }\n\nfunc NewApp(n Namer, p Port) *App { return &App{n} }\n\nvar _ = kessoku.Inject[*App]("InitApp", kessoku.Provide(NewConfig), kessoku.Bind[Namer](kessoku.Struct[*Config]()), kessoku.Bind[Namer](kessoku.Provide(NewOther)), kessoku.Provide(NewApp))\n\nfunc main() {}\n',
-    'BUILTIN_CLOSE': 'package main\n\nimport (\n\t"context"\n\n\t"github.com/mazrean/kessoku"\n)\n\ntype A struct{}\ntype B struct{ a *A }\n\nfunc close(v any) {}\n\nfunc NewA() *A     { return &A{} }\nfunc NewB(a *A) *B { return &B{a} }\n\nvar _ = kessoku.Inject[*B]("InitB", kessoku.Async(kessoku.Provide(NewA)), kessoku.Async(kessoku.Provide(NewB)))\n\nfunc main() {\n\tclose(nil)\n\tif InitB(context.Background()) == nil {\n\t\tpanic("wrong result")\n\t}\n}\n',
-    'BUILTIN_MAKE': 'package main\n\nimport (\n\t"context"\n\n\t"github.com/mazrean/kessoku"\n)\n\ntype A struct{}\ntype B struct{ a *A }\n\nvar make = 1\n\nfunc NewA() *A     { return &A{} }\nfunc NewB(a *A) *B { return &B{a} }\n\nvar _ = kessoku.Inject[*B]("InitB", kessoku.Async(kessoku.Provide(NewA)), kessoku.Async(kessoku.Provide(NewB)))\n\nfunc main() {\n\t_ = make\n\tif InitB(context.Background()) == nil {\n\t\tpanic("wrong result")\n\t}\n}\n',
+    'BUILTIN_CLOSE': 'package main\n\nimport (\n\t"context"\n\n\t"github.com/mazrean/kessoku"\n)\n\ntype A struct{}\ntype C struct{}\ntype B struct{ a *A }\n\nfunc close(v any) {}\n\nfunc NewA() *A     { return &A{} }\nfunc NewC() *C     { return &C{} }\nfunc NewB(a *A, c *C) *B { return &B{a} }\n\nvar _ = kessoku.Inject[*B]("InitB", kessoku.Async(kessoku.Provide(NewA)), kessoku.Async(kessoku.Provide(NewC)), kessoku.Provide(NewB))\n\nfunc main() {\n\tclose(nil)\n\tif InitB(context.Background()) == nil {\n\t\tpanic("wrong result")\n\t}\n}\n',
+    'BUILTIN_MAKE': 'package main\n\nimport (\n\t"context"\n\n\t"github.com/mazrean/kessoku"\n)\n\ntype A struct{}\ntype C struct{}\ntype B struct{ a *A }\n\nvar make = 1\n\nfunc NewA() *A     { return &A{} }\nfunc NewC() *C     { return &C{} }\nfunc NewB(a *A, c *C) *B { return &B{a} }\n\nvar _ = kessoku.Inject[*B]("InitB", kessoku.Async(kessoku.Provide(NewA)), kessoku.Async(kessoku.Provide(NewC)), kessoku.Provide(NewB))\n\nfunc main() {\n\t_ = make\n\tif InitB(context.Background()) == nil {\n\t\tpanic("wrong result")\n\t}\n}\n',
     'FUNC_TYPE': 'package main\n\nimport "github.com/mazrean/kessoku"\n\ntype DB struct{ S string }\ntype Factory func() *DB\ntype Maker = func(*DB) *App\ntype App struct{ D *DB }\n\nvar factory Factory = func() *DB { return &DB{"db"} }\nvar maker Maker = func(d *DB) *App { return &App{d} }\n\nvar _ = kessoku.Inject[*App]("InitApp", kessoku.Provide(factory), kessoku.Provide(maker))\n\nfunc main() {\n\tif InitApp().D.S != "db" {\n\t\tpanic("wrong result")\n\t}\n}\n',
     'STRUCT_ALIAS_PTR': 'package main\n\nimport "github.com/mazrean/kessoku"\n\ntype Port int\ntype Config struct{ Port Port }\ntype ConfigPtr = *Config\ntype App struct{ P Port }\n\nfunc NewConfig() *Config { return &Config{Port: 7} }\nfunc NewApp(p Port) *App { return &App{p} }\n\nvar _ = kessoku.Inject[*App]("InitApp", kessoku.Provide(NewConfig), kessoku.Struct[ConfigPtr](), kessoku.Provide(NewApp))\n\nfunc main() {\n\tif InitApp().P != 7 {\n\t\tpanic("wrong result")\n\t}\n}\n',
     'LOCAL_SET': 'package main\n\nimport "github.com/mazrean/kessoku"\n\ntype DB struct{ S string }\ntype App struct{ D *DB }\n\nfunc NewDB() *DB        { return &DB{"db"} }\nfunc NewApp(d *DB) *App { return &App{d} }\n\nfunc wiring() {\n\ts := kessoku.Set(kessoku.Provide(NewDB))\n\t_ = kessoku.Inject[*App]("InitApp", s, kessoku.Provide(NewApp))\n}\n\nfunc main() {\n\tvar f func() *App = InitApp\n\tif f().D.S != "db" {\n\t\tpanic("wrong result")\n\t}\n}\n',
